@@ -311,7 +311,12 @@ func (st *state) checkDec(long bool, stream []byte, src int) {
 			st.failf(pre+"no-error-for-continuation-run-of-cap-length", "stream %x starts with %d bytes that all carry the continuation bit, yet ReadFrom returned nil error (value %#x, n=%d)", stream, maxLen, got, n)
 		}
 	case d.Truncated:
-		st.unspec++ // stream ends inside the number: statement silent (C08/C09)
+		st.unspec++ // stream ends inside the number: statement silent (C08/C09) on the verdict ...
+		// ... but whatever count comes back is a count of bytes read: it cannot name more bytes than the decoder took
+		// from the source (framing layers add these counts up, also on the error path)
+		if n > int64(consumed) {
+			st.failf(pre+"n-exceeds-bytes-consumed/stream-ends-inside-the-number", "stream %x ends inside the number: ReadFrom reported n=%d (err=%v) but took only %d bytes from the source", stream, n, err, consumed)
+		}
 	case d.Overflow || d.NonMinimal:
 		st.unspec++ // acceptance and value not fixed by the statement
 		// ... but a decoder that does accept the bytes still "reports exactly that many bytes consumed": the count
